@@ -6,67 +6,67 @@ import json, os, sys
 CHECKS = {
  "C07": ("model_checking",
          "explicit-state breadth-first search over a reference model of the keymap; every transition replayed on a fresh real ui.State (key + settle under the scheduler's default schedule) and compared",
-         "9 start commands on a generated world (thread with ancestors and paged replies, actor with paged outbox, multi-author post with unfetchable parent, empty outbox, outbox with a missing second page, feed of two actors, empty feed, failing URL, empty collection); alphabet of 38 tokens (keymap keys, digits, Esc, Backspace, NUL/LF/0xC3, :open/:feed/unknown commands, a 20-digit number, 0 Enter, n .); model depth 3 (quick, about 10 000 transitions) / 5 at two geometries and preload values (thorough): after every transition mode, buffer, history length and index and the highlighted item equal the model's, no panic, no deadlock, quiescence reached, and every emitted frame has the terminal's height, is terminal-safe and leaks no attribute.",
+         "10 start commands on a generated world (thread with ancestors and paged replies, actor with paged outbox, multi-author post with unfetchable parent, empty outbox, outbox with a missing second page, feed of two actors, empty feed, failing URL, empty collection, paged collection opened as a listing); alphabet of 38 tokens (keymap keys, digits, Esc, Backspace, NUL/LF/0xC3, :open/:feed/unknown commands, a 20-digit number, 0 Enter, n .); model depth 3 plus a second search to depth 6 over the page-opening and history keys only (quick, about 20 000 transitions) / 5 at two geometries and preload values (thorough): after every transition mode, buffer, history length and index and the highlighted item equal the model's, no panic, no deadlock, quiescence reached, and every emitted frame has the terminal's height, is terminal-safe and leaks no attribute.",
          "Trusted: lib/uimodel (world ground truth and keymap model written from the readme and the statement). A transition is key + settle (interleavings are C08's); keys the statement does not define while a number is being typed are crash-checked only; the preload window is not judged; history capped at 4 pages; preload_amount >= 1.",
          "DESIGN.md §3 C07"),
  "C08": ("model_checking",
          "stateless schedule enumeration of the real UI and fan-out code under a cooperative scheduler: depth-first search with replay, preemption bound raised 0,1,2(,3), happens-before fingerprint pruning",
          "10 UI scenarios (open, feed, keys, resize, link selection, media hook, command line, racing loaders; each goroutine started as main does) and 6 pub-level scenarios (post fan-out, activity, two-page harvest, duplicate authors through the coalescing fetcher, NewSplicer, replenish), every schedule with at most 1 preemption in all of them and at most 2 in most (quick, 30 s per scenario, about 100 000 executions) / up to 3 (thorough, 8 min per scenario): the UI lock is held in every private State method and frame, frames never overlap, no deadlock or panic, loaders finish, frames have the terminal's height, every final state equals that of a non-preemptive (serial) schedule, constructed items are identical in all schedules, one request per URL.",
-         "Scheduling points at Lock, Wait, go, exit, dial and the output callback (sufficient for data-race-free code); plain-memory races the scheduler cannot see are only covered indirectly (result determinism). UI scenarios inline the pub fan-out; the evidence lists the completed bound per scenario and exhaustive=true means every scenario finished bound 1.",
+         "Scheduling points at Lock, Wait, go, exit, dial and the output callback (sufficient for data-race-free code); plain-memory races the scheduler cannot see are covered indirectly (result determinism) and by a supplement that is sampling, not the deciding step: the same scenario bodies built with -race and run free (3 rounds quick, 40 thorough); a race report is a violation. UI scenarios inline the pub fan-out; the evidence lists the completed bound per scenario and exhaustive=true means every scenario finished bound 1.",
          "DESIGN.md §3 C08, §2.2"),
  "C19": ("exploration",
          "complete enumeration of the colour space and of a configuration grid through the real parser against a reference acceptance predicate; start-up probes of every accepted single and pairwise configuration",
-         "All 16^6 (quick) / 22^6 (thorough) six-digit colours and all 21.4 million strings of length <=7 over an 11-symbol alphabet through the real converter; the full product hook(7) x cache_size(7) x preload_amount(8) x timeout_seconds(8) x feeds(5), the four colours (6^4) and unknown keys, tables and a syntax error pairwise with every key through the real parser: reject / accept exactly as the reference says, accepted colours are decimal triples 0..255; every accepted configuration with at most two keys set starts a probe process (this binary under XDG_CONFIG_HOME) driving the real UI: rejected with a diagnostic or runs to PROBE-OK.",
+         "All 16^6 (quick) / 22^6 (thorough) six-digit colours and all 21.4 million strings of length <=7 over an 11-symbol alphabet through the real converter; the full product hook(7) x cache_size(7) x preload_amount(8) x timeout_seconds(8) x feeds(5), the four colours (6^4) and unknown keys, unknown tables (also ones that hold nothing) and a syntax error pairwise with every key through the real parser: reject / accept exactly as the reference says, accepted colours are decimal triples 0..255; every accepted configuration with at most two keys set starts a probe process (this binary under XDG_CONFIG_HOME) driving the real UI: rejected with a diagnostic or runs to PROBE-OK.",
          "Trusted: the reference acceptance predicate and the probe script in checks/c19; well-typed but out-of-range values may be rejected or accepted (only accepted-and-crashing counts); the probe exercises open, move, select, links, media, history, creators, feed and resize over the in-memory peer.",
          "DESIGN.md §3 C19"),
  "C01": ("exploration",
          "bounded-exhaustive enumeration of control code points x encodings x carriers x sinks x widths against a terminal-safety oracle",
-         "8 structurally distinct control characters (quick) / all 64 C0, DEL and C1 code points except newline (thorough), each followed by a tell-tale SGR parameter servitor never emits, in 7 encodings inside 32 markup carriers of the four media types, in every string field of actors, posts, activities and their nested links, authors and collections (as string, list, object, key, entity), at 13 positions of raw HTTP responses quoted in error items, and in UI frames (normal, selection, opening, problem, command footers); sinks Markup.Render, String, Preview, Name at widths 1,2,7,80,81: after removing exactly the SGR sequences servitor generates no control character other than newline remains.",
+         "8 structurally distinct control characters (quick) / all 64 C0, DEL and C1 code points except newline (thorough), each followed by a tell-tale SGR parameter servitor never emits, in 7 markup encodings, plus field shapes string / list / object / hostile key / entity / percent-encoded in the host and in the path, query and fragment of a URL inside 32 markup carriers of the four media types, in every string field of actors, posts, activities and their nested links (with and without a name, so that the address itself is displayed), authors and collections (as string, list, object, key, entity), at 13 positions of raw HTTP responses quoted in error items, and in UI frames (normal, selection, opening, problem, command footers); sinks Markup.Render, String, Preview, Name at widths 1,2,7,80,81: after removing exactly the SGR sequences servitor generates no control character other than newline remains.",
          "Trusted: lib/oracle tokenizer and palette (the four configured colours); Env-B peer for raw responses; combinations of two atoms in one document are not enumerated.",
          "DESIGN.md §3 C01"),
  "C06": ("exploration",
          "bounded-exhaustive enumeration of JSON shape deviations, markup forests and nesting chains through pub.New and every Tangible method, in worker processes with a crash/hang watchdog",
-         "21 baseline documents x every field x 30 values (single deviations) and field pairs (8 values on 5 baselines quick; 30 values on all baselines thorough), top-level non-objects, HTML forests up to 3/4 nodes and gemtext/Markdown/plaintext sequences as post bodies, 11 nesting families x inner content at 13 depths up to 120 (quick) / every depth 1..120 at 4 widths (thorough): no panic (also none in a background goroutine), no nil item, every case finishes within the horizon.",
+         "21 baseline documents x every field x 30 values (single deviations) and field pairs (8 values on 5 baselines quick; 30 values on all baselines thorough), top-level non-objects, HTML forests up to 3/4 nodes and gemtext/Markdown/plaintext sequences as post bodies, 15 nesting families (direct and through intermediate elements such as h4>div, pre>div, code>pre) x inner content at 13 depths up to 120 (quick) / every depth 1..120 at 4 widths (thorough): no panic (also none in a background goroutine), no nil item, every case finishes within the horizon.",
          "Objects are passed as embedded values (no network); promptness is a 90 s per-case horizon plus a goroutine-count cap in the worker, deliberately loose (normal cases take milliseconds, the worst bounded case 3 s); a crashed worker is restarted without the crashing case.",
          "DESIGN.md §3 C06"),
  "C02": ("model_checking",
          "enumeration of multi-host attack worlds (slot x presentation x attacker) x warming histories x cache sizes through the real FetchUnknown / pub.New; provenance judged from text every served object carries",
-         "2 attackers x 10 reference slots x 17 presentations of a forged copy of h1's note or actor x 4 warming histories x cache sizes {128,1} (quick) / {128,1,2} (thorough); per case pub.New by URL (twice), as an embedded value with and without source, and client.FetchUnknown three times, with every reachable creator, recipient, parent, child, actor and target inspected: an item shown with an id on host H only ever shows text served by H, and FetchUnknown never returns an (object, id) pair whose stamp differs from the id's host.",
+         "2 attackers x 12 reference slots (incl. references wrapped in an inline Create) x 20 presentations (incl. redirects and stubs whose landing document is honest about itself) of a forged copy of h1's note or actor x 4 warming histories (thorough: every ordered pair of warming steps) x cache sizes {128,1} (quick) / {128,1,2} (thorough); per case pub.New by URL (twice), as an embedded value with and without source, and client.FetchUnknown three times, with every reachable creator, recipient, parent, child, actor and target inspected: an item shown with an id on host H only ever shows text served by H, and FetchUnknown never returns an (object, id) pair whose stamp differs from the id's host.",
          "Env-B (hosts = dial addresses of the verifrt.Dial seam). Embedded values are passed with the source of their enclosing document, as servitor's own callers do. Completeness (no false 'forged') is not judged.",
          "DESIGN.md §3 C02"),
  "C09": ("exploration",
          "enumeration of listing worlds (entry kinds x representations x orders x paging) compared position by position with generator ground truth",
-         "Outbox of an actor with 13 activity kinds x 4 representations (+404, junk), reply collection of a post with 14 reply kinds x 2 representations, all singles, all ordered pairs (inline and split over a remote page) and, in thorough, all ordered triples over the URL-form kinds; 12 author cases directly and as an announced object: every position shows the genuine item or an error item as ground truth says, nothing is dropped or reordered.",
+         "Outbox of an actor with 13 activity kinds x 4 representations (+404, junk), reply collection of a post with 14 reply kinds x 2 representations, actors and parents whose ids differ from the genuine one only in the query, all singles, all ordered pairs (inline and split over a remote page) and, in thorough, all ordered triples over the URL-form kinds; 12 author cases directly and as an announced object: every position shows the genuine item or an error item as ground truth says, nothing is dropped or reordered.",
          "Env-B world; ground truth is written from the statement in checks/c09 (genuine = activity whose actor is the owner by id / reply whose parent resolves to the post's id / authors on the post's host, two missing ids counting as the same place).",
          "DESIGN.md §3 C09"),
  "C04": ("exploration",
          "full product of URL components with an exact expectation of the bytes written; generic request oracle on every connection for relative references, webfinger handles, hostile content and the UI's :open command",
          "60 784 URL strings (6 schemes x 3 userinfos x 10 hosts incl. one that refuses connections x 14 paths x 8 queries x 3 fragments) through url.Parse + jtp.Get: non-https URLs open no connection; every https URL opens exactly one TLS connection to its host and port and writes exactly request line + Host + Accept with the expected escaping; 18 hostile references x 4 sources through client.FetchUnknown, as Location / embedded reference / id through pub.New and the Tangible methods, 154 webfinger handles, and the :open command typed byte by byte: every connection is TLS with verification on, four CRLF lines, no control bytes, origin-form target without blanks or fragment, Host matching the dial address, constant Accept.",
-         "Env-B: observation at the verifrt.Dial seam (records the dial function called, TLS config class, address, bytes written); connections whose dial host Go's resolver would reject are not judged; no real socket or certificate validation is exercised here.",
+         "Env-B: observation at the verifrt.Dial seam (records the dial function called, TLS config class, address, bytes written); connections whose dial host Go's resolver would reject are not judged. Env-A part: a complete sub-product (2 schemes x 3 host spellings x 12 paths x 6 queries) repeated over a real TLS listener on loopback with a run-time CA and an in-process DNS responder behind servitor's own dialer: bytes arrive inside TLS, SNI and DNS question name the URL's host, received bytes equal the expectation.",
          "DESIGN.md §3 C04"),
  "C05": ("fault_enumeration",
          "exhaustive fault-point enumeration (every cut byte x FIN/RST/stall x every hop, trickle, connection-stage faults) over a response corpus on the real fetch path with virtual-time connections",
          "9 exchanges (single responses, a 3-hop redirect chain, webfinger, pub.New on an actor with outbox); every byte offset of every response as a cut with FIN, with RST and as a stall, trickle from 3 offsets, refused and stalled connections, at every hop (5 739 fault runs quick; thorough cuts the 4 kB response at every byte too): the call returns, no panic, no hang (a stalled read must meet an armed deadline), virtual time <= 5 x timeout per connection, and no document unless the whole JSON object was delivered.",
-         "Env-B: in-memory connections with a virtual clock (rt/verifrt/net.go) model net.Conn deadlines; real-socket timing is not measured here. Handshake stalls are modelled as connection stalls covered by the dialer timeout.",
+         "Env-B: in-memory connections with a virtual clock (rt/verifrt/net.go) model net.Conn deadlines. Env-A part (run first): one real-time case per stall stage (before/in status line, headers, after headers, body, trickle, truncated body, silent peer that never completes the TLS handshake) over real TLS with a 1 s timeout; each must end in an error within 5 x timeout + 3 s (deliberately loose).",
          "DESIGN.md §3 C05"),
  "C03": ("model_checking",
          "full product of a response grammar against a three-valued reference classifier; redirect-graph enumeration; explicit-state search over fetch histories and cache sizes on the real jtp.Get",
-         "257 855 response exchanges (quick; status-line atoms x all header sequences of length <=2 over 23 atoms incl. confusable header names x 14 bodies x 2 tolerated sets; thorough adds length-3 header sequences and all bodies for every status), chains of every length around budgets 0..3 (jtp.Get) and 20 (client.FetchURL) in 5 Location styles, cycles, 7 kinds of bad hop at each position, and a breadth-first search over fetch histories (10 URLs, depth 4/5, cache sizes 1,2,3,128; state = real cache contents) where every fetch is compared with the cold result; request counts per fetch are bounded by the budget.",
+         "257 855 response exchanges (quick; status-line atoms x all header sequences of length <=2 over 23 atoms incl. confusable header names x 14 bodies x 2 tolerated sets; thorough adds length-3 header sequences and all bodies for every status), chains of every length around budgets 0..3 (jtp.Get) and 20 (client.FetchURL) in 5 Location styles, cycles, 7 kinds of bad hop at each position, and a breadth-first search over fetch histories (URLs incl. an http twin, a redirect to it, fragment and :443 variants, depth 4/5, cache sizes 1,2,3,128; state = real cache contents) where every fetch is compared with the cold result; request counts per fetch are bounded by the budget.",
          "Env-B (verifrt.Dial seam, no TLS). Exchanges the statement is silent on are crash-checked only. One known finding (cached suffix extends the redirect budget) is listed in known-findings.txt.",
          "DESIGN.md §3 C03"),
  "C20": ("exploration",
          "bounded-exhaustive enumeration of hook configurations x hostile links x media types x entry points through the real UI with a real exec of a dump program",
-         "Hook = dump program + every argument sequence of length <=2 (quick, 94 hooks) / <=3 (thorough, 823) over 9 tokens (placeholders, embedded and repeated placeholders, wrong case, --, empty) plus hooks whose program name is a placeholder; 17 links (spaces, quotes, ;, $(), backticks, leading dashes, text that looks like a placeholder, 4 kB, the path of an executable) x 5 media types x 6 entry points (o, number+Enter for body link and attachment, p, b): exactly one process per key, argv equals the configured argv with exact-match substitution at indices >= 1, stdin carries the link iff no %url argument, the program name is never substituted, the UI returns to normal mode.",
-         "Trusted: /verif/bin/vdump (records argv/stdin); the expected link/media type is what the item's own exported selector returns for a separately fetched copy; UI in pass-through mode over the in-memory peer.",
+         "Hook = dump program + every argument sequence of length <=2 (quick, 94 hooks) / <=3 (thorough, 823) over 9 tokens (placeholders, embedded and repeated placeholders, wrong case, --, empty) plus hooks whose program name is a placeholder; 21 links (four exactly a placeholder, spaces, quotes, ;, $(), backticks, leading dashes, text that looks like a placeholder, 4 kB, the path of an executable) x 7 media types (three made of placeholder-like tokens, one unknown) x 6 entry points (o, number+Enter for body link and attachment, p, b): exactly one process per key, argv equals the configured argv with exact-match substitution at indices >= 1, stdin carries the link iff no %url argument, the program name is never substituted, the UI returns to normal mode.",
+         "Trusted: /verif/bin/vdump (records argv/stdin); the expected link and media type come from the generated world (which link was put in which slot with which declared type), the item's own selector is only cross-checked against it; every page's opens are pressed in sequence and in reverse under one configuration object; UI in pass-through mode over the in-memory peer.",
          "DESIGN.md §3 C20"),
  "C11": ("model_checking",
          "enumeration of source tuples x explicit-state search over request sequences on the real Splicer against a reference merge",
-         "All tuples of up to 2 sources with up to 3 items and 3 sources with up to 2 items (quick, 16 572 tuples) / all tuples of up to 3 sources with up to 3 items (thorough, 621 436), timestamps from {missing,t1,t2,t3} in every order; per tuple a breadth-first search over reference states (items delivered) with request sizes {0,1,2,3,5}, every transition replayed on a fresh Splicer, every continuation asked twice, start offsets 1..3 on the initial feed, and the continuation returned at exhaustion harvested once.",
+         "All tuples of up to 2 sources with up to 3 items and 3 sources with up to 2 items (quick, 16 572 tuples) / all tuples of up to 3 sources with up to 3 items (thorough, 621 436), timestamps from {missing,t1,t2,t3} in every order; per tuple a breadth-first search over reference states (items delivered) with request sizes {0,1,2,3,5}, every transition replayed on a fresh Splicer, every continuation asked twice, start offsets 1..3 on the initial feed, unmerged request sequences (the caller keeps the first answer and asks the continuation again without merging), and the continuation returned at exhaustion harvested once.",
          "Trusted: the reference merge and the synthetic Container sources in checks/c11; splicer.VerifNewSplicer (accessor) builds the state NewSplicer leaves behind. NewSplicer's own fetch fan-out is covered by C08's scenarios, not here.",
          "DESIGN.md §3 C11"),
  "C10": ("model_checking",
          "enumeration of page-chain layouts x explicit-state search over request sequences on the real Collection, against the lazily generated true sequence",
-         "7 636 chains (quick; 2 kinds x 4 root-item variants x page vectors up to 3 pages of size 0..2 x 3 placements x 6+ tails incl. cycles and failing pages) / about 180 000 (thorough, 4 pages of size 0..3); per chain a breadth-first search over reference states (items delivered) with request sizes {0,1,2,3,4,7}, every transition replayed through the continuation protocol on a fresh Collection over the in-memory peer, plus unmerged request pairs. Delivered items are a prefix of the truth, at most one justified error item, no short or over-long answers, nothing lost at the end; non-terminating cases are caught by a worker watchdog.",
+         "7 636 chains (quick; 2 kinds x 4 root-item variants x page vectors up to 3 pages of size 0..2 x 3 placements x 6+ tails incl. cycles and failing pages; pages that carry first/last/prev links; first requests at start offsets 0,1,2,3,5) / about 180 000 (thorough, 4 pages of size 0..3); per chain a breadth-first search over reference states (items delivered) with request sizes {0,1,2,3,4,7}, every transition replayed through the continuation protocol on a fresh Collection over the in-memory peer, plus unmerged request pairs. Delivered items are a prefix of the truth, at most one justified error item, no short or over-long answers, nothing lost at the end; non-terminating cases are caught by a worker watchdog.",
          "Trusted: the truth walker in checks/c10; Env-B peer (lib/world, verifrt.Dial seam); the watchdog thresholds (50 000 goroutines or 60 s for one chain) only decide non-termination. Eagerness of look-ahead is deliberately not judged.",
          "DESIGN.md §3 C10"),
  "C12": ("exploration",
@@ -76,7 +76,7 @@ CHECKS = {
          "DESIGN.md §3 C12"),
  "C14": ("exploration",
          "bounded-exhaustive enumeration of style expressions x layout sequences, judged by an SGR state machine",
-         "All 17^3 x 5 expressions f(g(h(leaf))) and 17^3 x 25 expressions f(g(x)+h(y)) over the exported style functions, each followed by every layout sequence of length <=1 (quick, 1.9e6 outputs) / <=2 (thorough, 2.7e7 outputs); per-letter attribute sets equal the union of the enclosing styles, nothing is active at any line end or at the end of the string, and layout never changes a surviving letter's attributes.",
+         "All 17^3 x 5 expressions f(g(h(leaf))) and 17^3 x 25 expressions f(g(x)+h(y)) over the exported style functions, each followed by every layout sequence of length <=1 (quick, 1.9e6 outputs) / <=2 (thorough, 2.7e7 outputs); per-letter attribute sets (and those of the blank between two letters of a leaf) equal the union of the enclosing styles under two palettes, nothing is active at any line end or at the end of the string, layout never changes a surviving letter's attributes, and a call-history phase runs every ordered pair of calls over 28 operations x 6 arguments and compares the second result with the same call in isolation.",
          "Trusted: lib/oracle SGR machine and the per-function attribute table in checks/c14; decoration cells are checked for neutrality only. Markup documents and frames are checked for neutrality by the C01/C06/C07 enumerations, not here.",
          "DESIGN.md §3 C14"),
  "C15": ("model_checking",
